@@ -74,8 +74,11 @@ func Install(s *Sched) {
 func Cur() *Sched { s, _ := cur.Load().(*Sched); return s }
 
 // Reseed sets the yield stream position (driver: once per step).
+//
+//go:norace
 func (s *Sched) Reseed(v uint64) { s.state = v }
 
+//go:norace
 func (s *Sched) next() uint64 {
 	s.state += 0x9e3779b97f4a7c15
 	z := s.state
@@ -95,6 +98,11 @@ func match(pat, site string) bool {
 }
 
 // Y is the yield point.
+//
+// The scheduler state is deliberately unsynchronised (one P); in the race
+// build it must not be instrumented, or every pair of call sites becomes a report.
+//
+//go:norace
 func Y(site string) {
 	s, _ := cur.Load().(*Sched)
 	if s == nil {
